@@ -4,12 +4,16 @@ import TinsModel.Crypto.LemmasWep
 import TinsModel.Crypto.LemmasSafety
 import TinsModel.Crypto.LemmasTkip
 import TinsModel.Crypto.LemmasHandshake
+import TinsModel.Crypto.LemmasKdf
+import TinsModel.Crypto.LemmasHistory
+import TinsModel.Crypto.LemmasWire
 /-
   Property C09 — WEP / TKIP / CCMP decryption recovers exactly the plaintext, safely.
   Theorems only (helper lemmas live in TinsModel/Crypto/Lemmas*.lean).
 
   Model  : TinsModel/Crypto/{Crc,RC4,Wep,Tkip,Ccmp,Wpa2,Frame}.lean  (code-shaped, src/crypto.cpp)
-  Spec   : TinsModel/Crypto/Spec.lean  (encapsulation / decapsulation written from IEEE 802.11)
+  Spec   : TinsModel/Crypto/Spec.lean  (encapsulation / decapsulation written from IEEE 802.11),
+           TinsModel/Crypto/SpecKdf.lean (PRF, pairwise key hierarchy, EAPOL-Key MIC, handshake grammar)
 -/
 namespace Tins.Props.C09
 open Tins.Crypto
@@ -134,32 +138,87 @@ theorem parse_inverts_header_bytes (ip : InnerParser) (h : Hdr) (wf : h.WF) (hw 
     that `ccmp_decrypt_unicast` assembles from the parsed fields equal the length-prefixed, zero-padded AAD and the
     nonce of IEEE 802.11 computed from the header *bytes* (masked frame control, A1-A3, masked sequence control,
     A4 and the TID when present). Subtypes 4-7 (no frame body) are excluded. -/
-theorem ccmp_aad_nonce_is_ieee (h : Hdr) (wf : h.WF) (hsub : h.subtype < 4 ∨ 8 ≤ h.subtype) :
+theorem ccmp_aad_nonce_is_ieee (h : Hdr) (wf : h.WF) (hsub : h.subtype < 4 ∨ 8 ≤ h.subtype) (hh : h.htc = false) :
     ccmpAad h = .ok (padZero 32 (Spec.be16 (Spec.ccmpAad h.bytes).length ++ Spec.ccmpAad h.bytes), specPrio h.bytes) ∧
     (∀ pn, Spec.ccmpNonce h.bytes pn = [specPrio h.bytes] ++ h.addr2 ++ Spec.pnBytes pn) :=
-  ⟨(ccmpAad_spec h wf hsub).1, (ccmpAad_spec h wf hsub).2.1⟩
+  ⟨(ccmpAad_spec h wf hsub hh).1, (ccmpAad_spec h wf hsub hh).2.1⟩
 
 /-- **Refinement.** For *every* block function `E` with 16-byte output, every well-formed header and every body
     longer than 16 bytes, `ccmp_decrypt_unicast` returns the LLC/SNAP parse of the specification's CCMP
     decapsulation (counter mode + CBC-MAC over B0, AAD, data): null exactly when the MIC does not verify or the
     plaintext is not a well-formed LLC/SNAP payload. -/
 theorem ccmp_refines_spec (ip : InnerParser) (E : BlockFn) (hE : ∀ b, (E b).length = 16) (h : Hdr) (wf : h.WF)
-    (hsub : h.subtype < 4 ∨ 8 ≤ h.subtype) (pload : Bytes) (hn : 16 < pload.length) :
+    (hsub : h.subtype < 4 ∨ 8 ≤ h.subtype) (hh : h.htc = false) (pload : Bytes) (hn : 16 < pload.length) :
     ∃ p', ccmpDecrypt ip E h pload = .ok (snapResult ip (Spec.ccmpDecap E h.bytes pload), p') :=
-  ccmpDecrypt_refines ip E hE h wf hsub pload hn
+  ccmpDecrypt_refines ip E hE h wf hsub hh pload hn
 
 /-- **Round trip (specification level)** for every block function, header, 48-bit PN, key-id byte and data. -/
 theorem ccmp_spec_roundtrip (E : BlockFn) (hE : ∀ b, (E b).length = 16) (hb : Bytes) (pn : Nat) (hpn : pn < 2 ^ 48)
     (kid : UInt8) (m : Bytes) : Spec.ccmpDecap E hb (Spec.ccmpEncap E hb pn kid m) = some m :=
   spec_ccmp_roundtrip E hE hb pn hpn kid m
 
+/-- the MAC header on the air: the fields libtins parses and, for +HTC frames (QoS data with the Order bit), the
+    4-octet HT Control field the standard puts behind the QoS control field -/
+def airHeader (h : Hdr) (htc : Bytes) : Bytes := h.bytes ++ (if h.htc then htc else [])
+
+/-- `Dot11::from_bytes` followed by the data-frame branch of `WPA2Decrypter::decrypt` -/
+def decryptFrameBytes (ip : InnerParser) (aes : Bytes → BlockFn) (keys : KeyTable) (f : Bytes) : Option (Bool × Frame) :=
+  match parseFrame ip f with
+  | .ok (.data fr) =>
+    match wpa2DecryptData ip aes keys fr with
+    | .ok r => some r
+    | _ => none
+  | _ => none
+
+/-- **Round trip (CCMP), full statement**: every header variant of IEEE 802.11 including +HTC frames — the frame made
+    of the header on the air and the reference CCMP encapsulation over it is decrypted to exactly the payload.
+    FALSE of libtins (known finding KF-C09-8): `Dot11QoSData` does not know the HT Control field, so its four octets
+    are taken for the start of the CCMP header, and the AAD keeps the Order bit the standard masks for QoS data. -/
+def ccmp_roundtrip_full : Prop :=
+  ∀ (ip : InnerParser) (aes : Bytes → BlockFn) (keys : KeyTable) (k : SessionKeys) (h : Hdr) (htc : Bytes),
+    h.WF → (h.subtype < 4 ∨ 8 ≤ h.subtype) → htc.length = 4 → h.wep = true → findKeys keys h = some k → k.isCcmp = true →
+    (∀ b, (aes ((k.ptk.drop 32).take 16) b).length = 16) →
+    ∀ (pn : Nat), pn < 2 ^ 48 → ∀ (kid : UInt8) (m : Bytes) (s : Snap), snapParse ip m = .ok s →
+      ∃ fr', decryptFrameBytes ip aes keys
+          (airHeader h htc ++ Spec.ccmpEncap (aes ((k.ptk.drop 32).take 16)) (airHeader h htc) pn kid m) = some (true, fr') ∧
+        fr'.inner = .snap s ∧ fr'.hdr.wep = false
+
+section HtcWitness
+private def wIp : InnerParser := fun _ r => .ok (.raw r)
+private def wAes : Bytes → BlockFn := fun _ b => (b ++ List.replicate 16 0).take 16
+private def wKeys : SessionKeys := ⟨List.replicate 80 7, true⟩
+/-- QoS Data, to-DS, protected, Order bit set: on the air a +HTC frame -/
+private def wHdr : Hdr := { fc0 := 0x88, fc1 := 0xc1, addr1 := [1, 1, 1, 1, 1, 1], addr2 := [2, 2, 2, 2, 2, 2],
+                            addr3 := [3, 3, 3, 3, 3, 3], sc0 := 0, sc1 := 0, qos := some (5, 0) }
+private def wTable : KeyTable := [(extractAddrPair wHdr, wKeys)]
+private def wMsg : Bytes := [0xaa, 0xaa, 3, 0, 0, 0, 0x88, 0xb5, 1, 2, 3, 4]
+private def wFrame : Bytes :=
+  airHeader wHdr [0, 0, 0, 0] ++ Spec.ccmpEncap (wAes ((wKeys.ptk.drop 32).take 16)) (airHeader wHdr [0, 0, 0, 0]) 5 0x20 wMsg
+
+set_option maxRecDepth 20000 in
+private theorem wFrame_not_decrypted : (decryptFrameBytes wIp wAes wTable wFrame).map (·.1) = some false := by decide
+
+/-- refutation on a concrete witness (a +HTC frame of the same shape is replayed on the real code by the check on
+    every run): QoS Data with the Order bit, HT Control 00 00 00 00 -/
+theorem ccmp_roundtrip_full_fails : ¬ ccmp_roundtrip_full := by
+  intro hfull
+  have wf : wHdr.WF := ⟨rfl, rfl, rfl, rfl, by decide, by decide, fun _ => rfl⟩
+  obtain ⟨fr', h1, _, _⟩ := hfull wIp wAes wTable wKeys wHdr [0, 0, 0, 0] wf (by decide) rfl (by decide) (by decide) rfl
+    (fun b => by simp [wAes]) 5 (by decide) 0x20 wMsg ⟨0xaa, 0xaa, 3, 0, 0x88b5, .raw [1, 2, 3, 4]⟩ rfl
+  have h2 := wFrame_not_decrypted
+  unfold wFrame at h2
+  rw [h1] at h2
+  cases h2
+end HtcWitness
+
 /-- **Round trip.** For every block cipher `aes` (16-byte blocks), every well-formed protected header variant, every
     48-bit packet number, key-id byte and LLC/SNAP payload `m` (parsing to `s`): the frame made of the header bytes
     and the reference CCMP encapsulation of `m` under the temporal key parses to that header, and
     `WPA2Decrypter::decrypt` — whenever its key lookup yields CCMP session keys with that temporal key — returns
-    true, installs exactly `s` and clears the protected bit. Independent of AES. -/
-theorem ccmp_roundtrip (ip : InnerParser) (aes : Bytes → BlockFn) (keys : KeyTable) (k : SessionKeys) (h : Hdr)
-    (wf : h.WF) (hsub : h.subtype < 4 ∨ 8 ≤ h.subtype) (hw : h.wep = true)
+    true, installs exactly `s` and clears the protected bit. Independent of AES.
+    Excluded from the full statement `ccmp_roundtrip_full`: +HTC frames (`h.htc`: QoS data with the Order bit). -/
+theorem ccmp_roundtrip_partial (ip : InnerParser) (aes : Bytes → BlockFn) (keys : KeyTable) (k : SessionKeys) (h : Hdr)
+    (wf : h.WF) (hsub : h.subtype < 4 ∨ 8 ≤ h.subtype) (hh : h.htc = false) (hw : h.wep = true)
     (hk : findKeys keys h = some k) (hc : k.isCcmp = true)
     (hE : ∀ b, (aes ((k.ptk.drop 32).take 16) b).length = 16)
     (pn : Nat) (hpn : pn < 2 ^ 48) (kid : UInt8) (m : Bytes) (s : Snap) (hs : snapParse ip m = .ok s) :
@@ -186,7 +245,7 @@ theorem ccmp_roundtrip (ip : InnerParser) (aes : Bytes → BlockFn) (keys : KeyT
     omega
   have hbne : body ≠ [] := by intro h0; rw [h0] at hblen; simp at hblen
   refine ⟨parseFrame_bytes ip h wf hw body hbne, ?_, clearWep_wep h⟩
-  obtain ⟨p', hd⟩ := ccmpDecrypt_refines ip _ hE h wf hsub body hblen
+  obtain ⟨p', hd⟩ := ccmpDecrypt_refines ip _ hE h wf hsub hh body hblen
   rw [spec_ccmp_roundtrip _ hE h.bytes pn hpn kid m] at hd
   unfold wpa2DecryptData
   simp only [Inner.findRaw, hw, hk, Bool.not_true, Bool.false_eq_true, if_false]
@@ -198,7 +257,8 @@ theorem ccmp_roundtrip (ip : InnerParser) (aes : Bytes → BlockFn) (keys : KeyT
     session keys, the MIC of the body verifies under those keys: the specification's decapsulation over the header
     bytes succeeds, and the new payload is the parse of exactly that plaintext. -/
 theorem ccmp_reject (ip : InnerParser) (aes : Bytes → BlockFn) (keys : KeyTable) (fr fr' : Frame) (wf : fr.hdr.WF)
-    (hsub : fr.hdr.subtype < 4 ∨ 8 ≤ fr.hdr.subtype) (k : SessionKeys) (hk : findKeys keys fr.hdr = some k)
+    (hsub : fr.hdr.subtype < 4 ∨ 8 ≤ fr.hdr.subtype) (hh : fr.hdr.htc = false) (k : SessionKeys)
+    (hk : findKeys keys fr.hdr = some k)
     (hc : k.isCcmp = true) (hE : ∀ b, (aes ((k.ptk.drop 32).take 16) b).length = 16)
     (h : wpa2DecryptData ip aes keys fr = .ok (true, fr')) :
     ∃ pload m s, fr.inner.findRaw = some pload ∧
@@ -215,7 +275,7 @@ theorem ccmp_reject (ip : InnerParser) (aes : Bytes → BlockFn) (keys : KeyTabl
     · unfold decryptUnicast at h
       rw [if_pos hc] at h
       by_cases hn : 16 < pload.length
-      · obtain ⟨p', hd⟩ := ccmpDecrypt_refines ip _ hE fr.hdr wf hsub pload hn
+      · obtain ⟨p', hd⟩ := ccmpDecrypt_refines ip _ hE fr.hdr wf hsub hh pload hn
         rw [hd] at h
         cases hdec : Spec.ccmpDecap (aes ((k.ptk.drop 32).take 16)) fr.hdr.bytes pload with
         | none => simp [hdec, snapResult] at h
@@ -430,5 +490,243 @@ theorem decrypt_keeps_capturer_drained (ip : InnerParser) (aes : Bytes → Block
 /-- non-vacuity of `handshake_complete`: concrete flag bytes of the four messages satisfy the classes -/
 example : isM1 ⟨1, 3, 2, [0x00, 0x8a], [], []⟩ = true ∧ isM2 ⟨1, 3, 2, [0x01, 0x0a], [], []⟩ = true ∧
     isM3 ⟨1, 3, 2, [0x13, 0xca], [], []⟩ = true ∧ isM4 ⟨1, 3, 2, [0x03, 0x0a], [], []⟩ = true := by decide
+
+/-! ## Key derivation (HMAC-SHA1, HMAC-MD5 and PBKDF2 are parameters) -/
+
+/-- **derive_keys_is_prf512.** For EVERY keyed hash `H` with 20-byte output in the place of HMAC-SHA1 and every pair of
+    MIC functions, every 32-octet PMK, all addresses `aa` / `spa` (equal length, stored in either order — a captured
+    handshake keeps min / max, not authenticator / supplicant), all nonces (equal length) and every message 4 of key
+    descriptor version 1 or 2, `SessionKeys::SessionKeys(handshake, pmk)`
+    * succeeds exactly when the Key MIC of message 4 — HMAC-MD5 for version 1, HMAC-SHA1-128 for version 2, over the
+      serialized frame with the Key MIC field zeroed, all 16 octets compared — verifies under the KCK, and then
+    * holds PRF-640(PMK, "Pairwise key expansion", Min(AA,SPA) ‖ Max(AA,SPA) ‖ Min(ANonce,SNonce) ‖ Max(ANonce,SNonce))
+      with Min / Max on the big-endian values (so also on equal prefixes), counter octets 0 … 3; its first 512 / 384
+      bits are the standard's PRF-512 / PRF-384, the temporal key used for CCMP is L(PTK, 256, 128), and the cipher is
+      CCMP exactly for version 2. -/
+theorem derive_keys_is_prf512 (H : Spec.Mac) (micf : Bool → Spec.Mac) (hH : ∀ k d, (H k d).length = 20)
+    (aa spa pmk : Bytes) (hlen : aa.length = spa.length) (hpmk : pmk.length = 32) (m1 m2 m3 m4 : Eapol)
+    (hn : m2.nonce.length = m3.nonce.length) (hs : Handshake) (hmsgs : hs.msgs = [m1, m2, m3, m4])
+    (haddr : (hs.a1 = aa ∧ hs.a2 = spa) ∨ (hs.a1 = spa ∧ hs.a2 = aa))
+    (hver : m4.keyDescriptor = 1 ∨ m4.keyDescriptor = 2) :
+    deriveKeys H micf hs pmk =
+      (Spec.sessionKeys H (micf false) (micf true) pmk aa spa m3.nonce m2.nonce m4.keyDescriptor.toNat m4.serialize
+        m4.mic).map (fun (ptk, ccmp) => ⟨ptk, ccmp⟩) ∧
+    ∀ k, deriveKeys H micf hs pmk = some k →
+      k.ptk = Spec.ptk H pmk aa spa m3.nonce m2.nonce 640 ∧
+      k.ptk.take 64 = Spec.ptk H pmk aa spa m3.nonce m2.nonce 512 ∧
+      k.ptk.take 48 = Spec.ptk H pmk aa spa m3.nonce m2.nonce 384 ∧
+      (k.ptk.drop 32).take 16 = Spec.tk (Spec.ptk H pmk aa spa m3.nonce m2.nonce 384) ∧
+      k.isCcmp = (m4.keyDescriptor == 2) := by
+  have hspec := deriveKeys_eq_spec H micf hH aa spa pmk hlen hpmk m1 m2 m3 m4 hn hs hmsgs haddr hver
+  refine ⟨hspec, ?_⟩
+  intro k hk
+  have hc := (deriveKeys_some_mic H micf hs pmk k m1 m2 m3 m4 hmsgs hk).1
+  rw [hspec] at hk
+  unfold Spec.sessionKeys at hk
+  simp only [] at hk
+  split at hk
+  · simp only [Option.map_some, Option.some.injEq] at hk
+    have hptk : k.ptk = Spec.ptk H pmk aa spa m3.nonce m2.nonce 640 := by rw [← hk]
+    have h48 : k.ptk.take 48 = Spec.ptk H pmk aa spa m3.nonce m2.nonce 384 := by
+      rw [hptk]; exact prf640_take48 H hH _ _ _
+    refine ⟨hptk, by rw [hptk]; exact prf640_take64 H _ _ _, h48, ?_, hc⟩
+    rw [← h48]
+    unfold Spec.tk
+    rw [List.drop_take, List.take_take]
+    rfl
+  · simp at hk
+
+/-- non-vacuity of `derive_keys_is_prf512`: two 6-octet addresses that agree on their first five octets, two 32-octet
+    nonces that agree on their first 31, a constant 20-octet "HMAC" -/
+example : ∃ (H : Spec.Mac) (aa spa n1 n2 : Bytes), (∀ k d, (H k d).length = 20) ∧ aa.length = spa.length ∧
+    n1.length = n2.length ∧ Spec.natMin aa spa = spa ∧ Spec.natMax n1 n2 = n1 ∧
+    (Spec.ptk H (List.replicate 32 7) aa spa n1 n2 512).length = 64 :=
+  ⟨fun _ _ => List.replicate 20 0, [1, 2, 3, 4, 5, 9], [1, 2, 3, 4, 5, 6], List.replicate 31 0 ++ [2], List.replicate 31 0 ++ [1],
+   fun _ _ => rfl, rfl, rfl, by decide, by decide, by decide⟩
+
+/-- **The literals of the source are the model's.** What the translator reads at named anchors of
+    `SessionKeys::SessionKeys(const RSNHandshake&, const pmk_type&)` and `SupplicantData` on every run — the label string,
+    the offsets of min / max address, smaller / larger nonce and counter in `PKE[100]`, the loop `for i < 4` writing
+    `PKE[99] = i` and 20 octets per round, the zeroed range `81 … 81 + 16`, the full-length MIC comparison, the 16-octet
+    KCK, the PMK size and the PBKDF2 iteration count — is the layout the model `deriveKeys` / `supplicantPmk` uses and
+    the specification's label and Key MIC field. -/
+theorem kdf_source_literals :
+    Gen.kdfLabel = Spec.pairwiseLabel ∧ Gen.kdfLabel ++ [0] = pkeLabel ∧
+    Gen.kdfLabel.length + 1 = Gen.kdfAddrOff1 ∧ Gen.kdfAddrOff1 + 6 = Gen.kdfAddrOff2 ∧
+    Gen.kdfAddrOff2 + 6 = Gen.kdfNonceOff1 ∧ Gen.kdfNonceOff1 + 32 = Gen.kdfNonceOff2 ∧
+    Gen.kdfNonceOff2 + 32 = Gen.kdfCounterOff ∧ Gen.kdfCounterOff + 1 = Gen.kdfPkeSize ∧
+    Gen.kdfRounds = 4 ∧ Gen.kdfStride = 20 ∧ Gen.kdfRounds * Gen.kdfStride = Gen.kdfPtkSize ∧
+    Gen.kdfCounterIsIndex = true ∧ Gen.kdfSmallerNonceFirst = true ∧
+    Gen.kdfMicOff = Spec.KeyField.mic.offset ∧ Gen.kdfMicLen = Spec.KeyField.mic.size ∧ Gen.kdfMicCompareFull = true ∧
+    Gen.kdfKckLen = 16 ∧ Gen.kdfPmkSize = 32 ∧ Gen.kdfPbkdf2Iter = 4096 := by decide
+
+/-- key descriptor versions the specification does not cover (0, 3 … 7) are treated like version 1: accepted only
+    with an HMAC-MD5 MIC, cipher TKIP -/
+theorem derive_keys_other_versions (H : Spec.Mac) (micf : Bool → Spec.Mac) (hs : Handshake) (pmk : Bytes) (k : SessionKeys)
+    (m1 m2 m3 m4 : Eapol) (hmsgs : hs.msgs = [m1, m2, m3, m4]) (hv : m4.keyDescriptor ≠ 2)
+    (hd : deriveKeys H micf hs pmk = some k) :
+    k.isCcmp = false ∧ (micf false (k.ptk.take 16) (Spec.micZeroed m4.serialize)).take 16 = m4.mic :=
+  deriveKeys_other_versions H micf hs pmk k m1 m2 m3 m4 hmsgs hv hd
+
+/-- **pmk_is_pbkdf2.** `add_ap_data(psk, ssid)` registers PSK = PBKDF2(passphrase, ssid, 4096, 256 bits) for a network
+    name not yet registered, and keeps the first registration otherwise (`std::map::insert`); PBKDF2 is a parameter. -/
+theorem pmk_is_pbkdf2 (pbkdf2 : Bytes → Bytes → Nat → Nat → Bytes) (st : Wpa2State) (psk ssid : Bytes) :
+    (lookup st.pmks ssid = none →
+      lookup (st.addApDataPsk pbkdf2 psk ssid).pmks ssid = some (Spec.pskOf pbkdf2 psk ssid)) ∧
+    (∀ v, lookup st.pmks ssid = some v → lookup (st.addApDataPsk pbkdf2 psk ssid).pmks ssid = some v) := by
+  unfold Wpa2State.addApDataPsk Wpa2State.addApData insertIfAbsent supplicantPmk Spec.pskOf
+  constructor
+  · intro h; simp [h, lookup]
+  · intro v h; simp [h]
+
+example : lookup (({} : Wpa2State).addApDataPsk (fun p s _ n => (p ++ s).take n) [1, 2] [3]).pmks [3] = some [1, 2, 3] := by decide
+
+/-! ## Handshake capture over all valid histories -/
+
+/-- **libtins' message classes are the standard's**: the flag tests of `process_packet` select message 1 … 4 exactly
+    as 11.6.6.2-5 does on the Key Information field -/
+theorem message_classes_are_ieee (e : Eapol) : msgClass e = Spec.msgOfInfo (e.info0.toNat * 256 + e.info1.toNat) :=
+  msgClass_is_ieee e
+
+/-- **handshake_complete, all histories.** For every capturer state `c` consistent with a position `t` of pair `k` in
+    the grammar ( M1⁺ [ M2⁺ [ M3⁺ [ M4⁺ ] ] ] )* — in particular every state at all together with the start position
+    — and every history `xs` the grammar accepts (retransmissions of every message, attempts abandoned after message
+    1, 2 or 3 whatever their replay counters, any number of complete runs of the same pair, frames of other pairs and
+    EAPOL-Key frames that are none of the four messages interleaved anywhere), `RSNHandshakeCapturer` has handed over
+    for the pair exactly the completed attempts — [last M1, first M2, first M3, M4] each — in order, nothing else, and
+    its partial handshake is where the grammar says. -/
+theorem handshake_complete_all_histories (k : AddrPair) (xs : List (Hdr × Eapol)) (c : Capturer) (t t' : Track)
+    (done0 : List Handshake) (hc : ofPair k c.completed = done0 ++ t.completed.map (Attempt.handshake k))
+    (hp : phaseEntry t.phase (c.entry k)) (ht : t.runCap k xs = some t') :
+    ofPair k (c.run xs).completed = done0 ++ t'.completed.map (Attempt.handshake k) ∧
+    phaseEntry t'.phase ((c.run xs).entry k) :=
+  capturer_run_valid k xs c t t' done0 hc hp ht
+
+/-- non-vacuity of `handshake_complete_all_histories`: M1 M1 M2 M2 M3 M4 M4 of one pair with a frame of another pair in
+    between is a word of the grammar and completes one attempt -/
+example :
+    let h1 : Hdr := { fc0 := 0x08, fc1 := 0x02, addr1 := [2, 0, 0, 0, 0, 9], addr2 := [2, 0, 0, 0, 0, 1], addr3 := [2, 0, 0, 0, 0, 1],
+                      sc0 := 0, sc1 := 0 }
+    let h2 : Hdr := { fc0 := 0x08, fc1 := 0x01, addr1 := [2, 0, 0, 0, 0, 1], addr2 := [2, 0, 0, 0, 0, 9], addr3 := [2, 0, 0, 0, 0, 1],
+                      sc0 := 0, sc1 := 0 }
+    let h3 : Hdr := { h2 with addr2 := [2, 0, 0, 0, 0, 7] }
+    let e (a b : UInt8) : Eapol := ⟨1, 3, 2, [a, b], [], []⟩
+    ((({} : Track).runCap (pairOf h1)
+      [(h1, e 0x00 0x8a), (h1, e 0x00 0x8a), (h2, e 0x01 0x0a), (h3, e 0x01 0x0a), (h2, e 0x01 0x0a), (h1, e 0x13 0xca),
+       (h2, e 0x03 0x0a), (h2, e 0x03 0x0a)]).map fun t => t.completed.length) = some 1 := by decide
+
+/-- from ANY capturer state: the start position fits every state -/
+theorem handshake_complete_from_any_state (k : AddrPair) (xs : List (Hdr × Eapol)) (c : Capturer) (t' : Track)
+    (ht : ({} : Track).runCap k xs = some t') :
+    ofPair k (c.run xs).completed = ofPair k c.completed ++ t'.completed.map (Attempt.handshake k) :=
+  (capturer_run_valid k xs c {} t' (ofPair k c.completed) (by simp) trivial ht).1
+
+/-- **keys_learned, all histories.** Let the decrypter know the access point `ap` (PSK / SSID registered and BSSID
+    announced or given), let its capturer be drained, and let `ps` be ANY history of frames — beacons, data frames,
+    non-data frames, EAPOL-Key frames of other pairs, and for pair `k` any sequence the grammar accepts: retransmitted
+    messages, abandoned attempts (also ones sharing a replay counter with a later attempt), re-handshakes of the same
+    pair.  Then every `decrypt` call returns, and afterwards the pair's key-table entry is what the completed attempts
+    make of the initial entry: the session keys of the LAST completed attempt whose MIC verifies under the network's
+    PMK; the access point stays known and the capturer stays drained. -/
+theorem keys_after_valid_history (ip : InnerParser) (aes : Bytes → BlockFn) (prf : Bytes → Bytes → Bytes)
+    (micf : Bool → Bytes → Bytes → Bytes) (k kk : AddrPair) (ap : Addr) (ssid pmk : Bytes) (ps : List Parsed)
+    (st : Wpa2State) (t' : Track) (hdr : st.cap.completed = []) (hap : lookup st.aps ap = some (ssid, pmk))
+    (ht : ({} : Track).runDec k kk ap ps = some t') (hq : ∀ p ∈ ps, p.castOk) :
+    ∃ st', st.run ip aes prf micf ps = some st' ∧
+      lookup st'.keys kk = expectedKeys prf micf k pmk (lookup st.keys kk) t'.completed ∧
+      st'.cap.completed = [] ∧ lookup st'.aps ap = some (ssid, pmk) ∧ phaseEntry t'.phase (st'.cap.entry k) := by
+  have inv : DecInv prf micf k kk ap ssid pmk (lookup st.keys kk) st {} := ⟨hdr, hap, rfl, trivial⟩
+  obtain ⟨st', h1, inv'⟩ := decrypter_run_valid ip aes prf micf k kk ap ssid pmk _ ps st {} t' inv ht hq
+  exact ⟨st', h1, inv'.keys, inv'.drained, inv'.apKnown, inv'.entry⟩
+
+/-- **… the PTK of the last completed attempt.** If the last attempt the history completes verifies, the entry holds
+    exactly its keys — whatever came before (earlier complete handshakes of the pair, abandoned attempts, …). -/
+theorem keys_are_last_attempt (ip : InnerParser) (aes : Bytes → BlockFn) (prf : Bytes → Bytes → Bytes)
+    (micf : Bool → Bytes → Bytes → Bytes) (k kk : AddrPair) (ap : Addr) (ssid pmk : Bytes) (ps : List Parsed)
+    (st : Wpa2State) (t' : Track) (hdr : st.cap.completed = []) (hap : lookup st.aps ap = some (ssid, pmk))
+    (ht : ({} : Track).runDec k kk ap ps = some t') (hq : ∀ p ∈ ps, p.castOk)
+    (cs : List Attempt) (last : Attempt) (hcs : t'.completed = cs ++ [last]) (key : SessionKeys)
+    (hd : deriveKeys prf micf (last.handshake k) pmk = some key) :
+    ∃ st', st.run ip aes prf micf ps = some st' ∧ lookup st'.keys kk = some key := by
+  obtain ⟨st', h1, h2, _⟩ := keys_after_valid_history ip aes prf micf k kk ap ssid pmk ps st t' hdr hap ht hq
+  exact ⟨st', h1, by rw [h2, hcs]; exact expectedKeys_last prf micf k pmk _ cs last key hd⟩
+
+/-- message 4 travels from the station to its access point (to-DS, addr3 = addr1): for such a frame the capturer's
+    pair is the key-table entry `extract_addr_pair` names and `find_ap` looks up addr1 — the side conditions the
+    history grammar puts on a message 4 hold for every real one -/
+theorem m4_pair_is_key_entry (h : Hdr) (h1 : h.toDS = true) (h2 : h.fromDS = false) (h3 : h.addr3 = h.addr1) :
+    pairOf h = extractAddrPair h ∧ findApAddr h = h.addr1 := pairOf_eq_extract h h1 h2 h3
+
+section HistoryExample
+private def exAp : Addr := [2, 0, 0, 0, 0, 1]
+private def exSta : Addr := [2, 0, 0, 0, 0, 9]
+private def exFrame (toAp : Bool) (info0 info1 nonceByte : UInt8) : Parsed :=
+  let hdr : Hdr := if toAp then { fc0 := 0x08, fc1 := 0x01, addr1 := exAp, addr2 := exSta, addr3 := exAp, sc0 := 0, sc1 := 0 }
+    else { fc0 := 0x08, fc1 := 0x02, addr1 := exSta, addr2 := exAp, addr3 := exAp, sc0 := 0, sc1 := 0 }
+  .data ⟨hdr, .snap ⟨0xaa, 0xaa, 3, 0, 0x888e, .eapol ⟨1, 3, 2, [info0, info1] ++ List.replicate 10 0 ++ [nonceByte], [], []⟩⟩⟩
+private def exM1 (n : UInt8) := exFrame false 0x00 0x8a n
+private def exM2 (n : UInt8) := exFrame true 0x01 0x0a n
+private def exM3 (n : UInt8) := exFrame false 0x13 0xca n
+private def exM4 := exFrame true 0x03 0x0a 0
+private def exHistory : List Parsed :=
+  [exM1 1, exM2 2,                                   -- an attempt abandoned after message 2
+   exM1 3, exM1 3, exM2 4, exM2 4, exM3 3, exM4,     -- a complete attempt with retransmissions
+   .beacon exAp (some [65]), exM4, .notData,           -- a beacon, message 4 again, something else
+   exM1 5, exM2 6, exM3 5, exM3 5, exM4]              -- the pair runs the handshake again
+
+/-- non-vacuity of `keys_after_valid_history` / `keys_are_last_attempt`: a history with an abandoned attempt, retransmitted
+    messages, an interleaved beacon and a re-handshake is accepted, and completes two attempts -/
+example : ((({} : Track).runDec (exAp, exSta) (exAp, exSta) exAp exHistory).map fun t => t.completed.length) = some 2 := by
+  decide
+end HistoryExample
+
+/-! ## Frame bytes → handshake message fields / SSID: the C09 parsing models are the wire family's
+
+The Wifi wire family (TinsModel/Wire/Wifi) models `RSNEAPOL`, `Dot11Beacon` and the tagged parameters byte for byte
+and carries their C01 (no fault), C02 (writes only its header), C03 (re-parse) theorems.  The three theorems below say
+that the models used by the handshake / key-learning theorems above are the same functions of the bytes. -/
+
+/-- **RSNEAPOL parsing**: `parseEapol` (what `msgClass`, `Eapol.nonce`, `Eapol.mic`, `keyDescriptor` read from) and
+    `Wire.Wifi.Eapol.fromBytes` agree on every byte string -/
+theorem rsneapol_parse_is_wire_model (b : Bytes) :
+    (b.length < 5 → parseEapol b = .error .malformedPacket ∧ Tins.Wire.Wifi.Eapol.fromBytes b = .throw .malformedPacket) ∧
+    (5 ≤ b.length → (b.getD 4 0 = 2 ∨ b.getD 4 0 = 254) →
+      (parseEapol b = .error .malformedPacket ∧ Tins.Wire.Wifi.Eapol.fromBytes b = .throw .malformedPacket) ∨
+      ∃ r, Tins.Wire.Wifi.Eapol.fromBytes b = .ok (some r) ∧ r.1.rsn = true ∧
+        parseEapol b = .ok (some (Tins.CryptoWire.eapolView r))) ∧
+    (5 ≤ b.length → b.getD 4 0 ≠ 2 → b.getD 4 0 ≠ 254 →
+      parseEapol b = .ok none ∧ (b.getD 4 0 ≠ 1 → Tins.Wire.Wifi.Eapol.fromBytes b = .ok none)) :=
+  Tins.CryptoWire.parseEapol_agrees b
+
+/-- **RSNEAPOL serialization** (the bytes the MIC of message 4 is computed over): `Eapol.serialize` is
+    `write_serialization` of the wire family followed by the trailing `RawPDU`, whatever the stored length field and
+    the previous content of the buffer -/
+theorem rsneapol_serialize_is_wire_model (e : Eapol) (hh : e.hdr.length = 94) (l0 l1 : UInt8) (pre : Bytes)
+    (hpre : pre.length = 99 + e.key.length) :
+    Tins.Wire.Wifi.Eapol.write ⟨true, [e.version, e.packetType, l0, l1, e.descType], e.hdr, e.key⟩ (pre ++ e.trailing) =
+      .ok e.serialize :=
+  Tins.CryptoWire.serialize_agrees e hh l0 l1 pre hpre
+
+/-- **Dot11Beacon / tagged parameters**: `parseBeacon` yields `addr3()` and the first SSID option of the wire family's
+    `Dot11Beacon`, and throws exactly when that constructor throws -/
+theorem beacon_parse_is_wire_model (f : Bytes) :
+    (∃ d i, Tins.Wire.Wifi.Dot11.parse "Dot11Beacon" f = .ok (d, i) ∧
+        parseBeacon f = .ok (.beacon ((d.ext.drop 6).take 6) (Tins.CryptoWire.firstSsid d.opts))) ∨
+    (Tins.Wire.Wifi.Dot11.parse "Dot11Beacon" f = .throw .malformedPacket ∧ parseBeacon f = .throw .malformedPacket) :=
+  Tins.CryptoWire.parseBeacon_agrees f
+
+/-- **Dot11Data / Dot11QoSData**: for every byte string of frame-control type Data, `parseFrame` yields the header
+    fields of the wire family's object (the addresses and DS bits the capturer's pair, `extract_addr_pair` and `find_ap`
+    are computed from; QoS control exactly for `Dot11QoSData`) and the payload its constructor hangs below, and throws
+    exactly when `Dot11::from_bytes` throws -/
+theorem data_header_parse_is_wire_model (ip : InnerParser) (fc0 fc1 : UInt8) (r : Bytes) (hty : (fc0 >>> 2) &&& 3 = 2) :
+    (∃ d i, Tins.Wire.Wifi.Dot11.fromBytes (fc0 :: fc1 :: r) = .ok (d, i) ∧
+        parseFrame ip (fc0 :: fc1 :: r) = Tins.CryptoWire.frameOf ip (Tins.CryptoWire.dataHdrView d) i) ∨
+    (Tins.Wire.Wifi.Dot11.fromBytes (fc0 :: fc1 :: r) = .throw .malformedPacket ∧
+        parseFrame ip (fc0 :: fc1 :: r) = Tins.Crypto.Out.throw .malformedPacket) :=
+  Tins.CryptoWire.parseFrame_data_agrees ip fc0 fc1 r hty
+
+/-- non-vacuity: a 99-byte RSN EAPOL-Key frame is parsed (by both models) into an object with a 94-byte header -/
+example : (parseEapol ([1, 3, 0, 95, 2] ++ List.replicate 94 0)).toOption.bind (·.map (·.hdr.length)) = some 94 := by decide
 
 end Tins.Props.C09
